@@ -53,6 +53,16 @@ func specsC02(tier string) []seqmc.Spec {
 		}
 		// a plain leaf below the atomic container (path collision both ways)
 		cfg.ops = append(cfg.ops, upd("t", "k/m", tss[0], 1))
+		// the same number in other arms of the value oneof (uint 1, string "1"):
+		// different values, so at an equal timestamp they replace int 1
+		for _, ts := range tss[:2] {
+			cfg.ops = append(cfg.ops, upd("t", "x", ts, 1003), upd("t", "x", ts, 1004))
+		}
+		// bundles: an update (accepted, stale, identical or too far ahead, depending
+		// on the state) together with a delete of another subtree in one notification
+		for _, ts := range tss {
+			cfg.ops = append(cfg.ops, op{kind: "multi", target: "t", ts: ts, ups: []updSpec{{ps("x"), 1}}, dels: []pathSpec{ps("y")}})
+		}
 		dts := append(append([]int64{}, tss...), tss[len(tss)-1]+1)
 		for _, q := range []string{"x", "y/z", "y", "*", "y/*", "k"} {
 			for _, ts := range dts {
@@ -107,6 +117,10 @@ func specsC03(tier string) []seqmc.Spec {
 		cfg.ops = append(cfg.ops, upd("t2", "x", 1, 1), updO("t1", "o", "x", 1, 1))
 		// decimals that differ only beyond float32 resolution, different precision
 		cfg.ops = append(cfg.ops, upd("t1", "dec", 1, 1001), upd("t1", "dec", 2, 1002), upd("t1", "dec", 3, 1001))
+		// the same number in another arm of the value oneof, same timestamp as an int update
+		cfg.ops = append(cfg.ops, upd("t1", "x", 1, 1003), upd("t1", "x", 2, 1004))
+		// a leaf stamped far ahead of the collector's clock (device time is not collector time)
+		cfg.ops = append(cfg.ops, upd("t1", "f", 1<<40, 4))
 		for _, q := range []string{"x", "a", "a/b", "*", "k"} {
 			cfg.ops = append(cfg.ops, del("t1", q, 3))
 		}
